@@ -4,6 +4,7 @@ import Upf.Proofs.TeidRun
 import Upf.Proofs.BessAddDel
 import Upf.Proofs.BessEnd
 import Upf.Proofs.TeidWorld
+import Upf.Proofs.PoolWorld
 import Upf.Proofs.History
 /-!
 # C05 — Ending a session reclaims everything it ever acquired (BESS part)
@@ -107,7 +108,7 @@ theorem nothing_leaks_along_every_history (cfg : Cfg) (pool : Option Pool.P) (g 
     let w := evs.foldl (stepEv cfg) { pool := pool, teid := g }
     (∀ x, w.teid.used x = true → x + 1 ∈ chosen w) ∧
     (∀ X k v, (w.tables.tab X).get k = some v → ∃ s ∈ allSessions w, k ∈ s.keysOf cfg X) := by
-  have h := inv_teid_run cfg evs { pool := pool, teid := g } (inv_start cfg pool g)
+  have h := inv_teid_run cfg evs { pool := pool, teid := g } (inv_start cfg pool g) (farwf_start pool g)
     ⟨hg, by simp [chosen, allSessions, flat, Held, hfresh]⟩ henv
   refine ⟨h.2.held.2.2, fun X k v hv => ?_⟩
   obtain ⟨s, hs, hl⟩ := (h.1.img X k v).mp hv
@@ -131,5 +132,26 @@ theorem all_ended_all_returned (cfg : Cfg) (pool : Option Pool.P) (g : Teid.G) (
     | some v =>
       obtain ⟨s, hs, _⟩ := h.2 X k v hv
       rw [hnone] at hs; cases hs
+
+/-- **no UE address is ever leaked**: along every history from the freshly built pool, an address is held only under the SEID of a stored
+session; once no session is left, every configured address is free again -/
+theorem addresses_all_returned (base : List Nat) (hb : base.Nodup) (cfg : Cfg) (g : Teid.G) (evs : List Ev)
+    (henv : EnvOK cfg { pool := some { free := base, inv := [] }, teid := g } evs)
+    (hnone : allSessions (evs.foldl (stepEv cfg) { pool := some { free := base, inv := [] }, teid := g }) = [])
+    (p : Pool.P) (hp : (evs.foldl (stepEv cfg) { pool := some { free := base, inv := [] }, teid := g }).pool = some p) :
+    p.inv = [] ∧ p.free.Perm base := by
+  have h := pool_run base cfg evs { pool := some { free := base, inv := [] }, teid := g } (inv_start cfg _ g) (farwf_start _ g) henv
+    ⟨by simp, hb, by simp⟩ (by intro k hk; simp [poolKeys] at hk)
+  rw [hp] at h
+  have hi : p.inv = [] := by
+    cases hi : p.inv with
+    | nil => rfl
+    | cons e rest =>
+      have := h.2 e.1 (by simp [poolKeys, hp, hi])
+      rw [hnone] at this
+      obtain ⟨s, hs, _⟩ := this; cases hs
+  refine ⟨hi, ?_⟩
+  have hperm := h.1.perm
+  simpa [hi] using hperm
 
 end Props.C05
